@@ -85,6 +85,10 @@ func (e *env) judgeSigners(res *Res, part string, avail []uint64, c Case, id, at
 		res.saw(part + ":too-few:" + failure)
 		return
 	}
+	if failed && c.Param != "" {
+		res.saw(part + ":failed:" + failure)
+		return
+	}
 	if failed {
 		res.violate(part+"-error-despite-enough-available", "%d available >= threshold %d but the call failed: %s (flags %s)", len(avail), t, failure, c.Flags)
 		return
@@ -220,13 +224,20 @@ func (d *driver) runMembers(nMax int) {
 
 // ---- through the real signing creation: SigningAttempt.AssignedMembers ------------------------------------------
 
-func evalSigning(e *env, c Case) (res Res) {
+func evalSigning(e *env, c Case) (res Res) { return evalSigningPre(e, c, "", nil) }
+
+// evalSigningPre: pre (optional) runs on the prepared state before the signing is requested; when it returns false
+// the case ends there.  prefix is prepended to the oracle-clause / outcome names.
+func evalSigningPre(e *env, c Case, prefix string, pre func(ctx sdk.Context, res *Res) bool) (res Res) {
 	k := e.w.App.TSSKeeper
 	ctx := engine.Fork(e.tssBase)
 	e.applyMembers(ctx, "signing", c.Flags, c.Cnt)
 	e.w.App.RollingseedKeeper.SetRollingSeed(ctx, mustHex(c.Seed))
 	k.SetSigningCount(ctx, c.PrevCount)
 	ctx = ctx.WithChainID(c.ChainID)
+	if pre != nil && !pre(ctx, &res) {
+		return
+	}
 	id := c.PrevCount + 1
 	used := map[int]uint64{}
 
@@ -272,7 +283,7 @@ func evalSigning(e *env, c Case) (res Res) {
 			return
 		}
 	}
-	e.judgeSigners(&sub, "signing:attempt1", avail, c, id, 1, got, addrs, failed, failure)
+	e.judgeSigners(&sub, prefix+"signing:attempt1", avail, c, id, 1, got, addrs, failed, failure)
 	res.Viol = append(res.Viol, sub.Viol...)
 	res.Outcomes = append(res.Outcomes, sub.Outcomes...)
 	res.Key = sub.Key
@@ -306,7 +317,7 @@ func evalSigning(e *env, c Case) (res Res) {
 			res.violate("signing-current-attempt", "after the retry CurrentAttempt is %d (err %v)", sg.CurrentAttempt, err)
 		}
 	}
-	e.judgeSigners(&sub, "signing:attempt2", avail, c, id, 2, got, addrs, failed, failure)
+	e.judgeSigners(&sub, prefix+"signing:attempt2", avail, c, id, 2, got, addrs, failed, failure)
 	res.Viol = append(res.Viol, sub.Viol...)
 	res.Outcomes = append(res.Outcomes, sub.Outcomes...)
 	res.Key += "/" + sub.Key
